@@ -1,6 +1,9 @@
 package eventbus
 
-import "context"
+import (
+	"context"
+	"sync"
+)
 
 //verif:entry property=C04 tier=both bounds="one Once handler (sync/async, filter none/reject-negative) plus m<=2 ordinary handlers around it (the one before it may be the very same function, plain or with a rejecting filter); history of H publishes each in {eligible, filter-rejected, already-cancelled context, other type, context cancelled mid-publish by the handler before it}" cover="fired,never-eligible" H_quick=3 H_thorough=4
 func harnessC04OnceHistory() {
@@ -121,4 +124,70 @@ func harnessC04OnceHistory() {
 		vAssert(fired == 0, "once-not-fired-without-eligible-event")
 		vCover("never-eligible")
 	}
+}
+
+//verif:entry property=C04 tier=both bounds="Once handler with a value filter (accepts N>0) between two ordinary handlers; G concurrent publishers each publishing one event whose value (accepted or rejected) is symbolic; every interleaving within the preemption bound" cover="raced" G_quick=2 G_thorough=3 preempt_quick=2 preempt_thorough=3 race=on
+func harnessC04Concurrent() {
+	G := vParam("G", 2)
+	c01Log, c01Re = nil, nil
+	bus := New()
+	async := vBool()
+	Subscribe(bus, c01HA[1])
+	so := []SubscribeOption{Once(), WithFilter(func(e evA) bool { return e.N > 0 })}
+	if async {
+		so = append(so, Async())
+	}
+	Subscribe(bus, c01HA[0], so...)
+	Subscribe(bus, c01HA[2])
+	vals := make([]int, G)
+	anyEligible := false
+	for g := 0; g < G; g++ {
+		vals[g] = 10 + g
+		if vBool() {
+			vals[g] = -(10 + g) // rejected by the filter
+		} else {
+			anyEligible = true
+		}
+	}
+	var wg sync.WaitGroup
+	for g := 0; g < G; g++ {
+		wg.Add(1)
+		v := vals[g]
+		go func() {
+			defer wg.Done()
+			Publish(bus, evA{N: v})
+		}()
+	}
+	wg.Wait()
+	bus.Wait()
+	vJoinAll()
+	log := c01TakeLog()
+	fired := 0
+	for _, e := range log {
+		if e.id == 0 {
+			fired++
+			vAssert(e.val > 0, "once-only-for-accepted-event")
+		}
+	}
+	vAssert(fired <= 1, "once-at-most-once")
+	if anyEligible {
+		vAssert(fired == 1, "once-exactly-once-when-eligible")
+	} else {
+		vAssert(fired == 0, "once-not-fired-without-eligible-event")
+	}
+	// the ordinary handlers around it receive every event exactly once
+	for _, id := range []int{1, 2} {
+		for _, v := range vals {
+			c := 0
+			for _, e := range log {
+				if e.id == id && e.val == v {
+					c++
+				}
+			}
+			vAssert(c == 1, "ordinary-handlers-unaffected")
+		}
+	}
+	cnt := HandlerCount[evA](bus)
+	vAssert(cnt == 3-fired, "once-counted-until-fired-only")
+	vCover("raced")
 }
